@@ -221,12 +221,34 @@ pub fn run(cfg: &Cfg) -> i32 {
         // depends on the server's hello, not on what this process did before
         if idx % 25 == 7 {
             use netconf::message::rpc::operation::{Builder, Filter, Get};
-            let mut other = sess::establish_ok(memwire::ALL_CAPS);
-            let refused = crate::sched::drive(other.session.rpc::<Get, _>(|b| b.filter(Some(Filter::Subtree("<x><!-- ]]>]]> --></x>".to_string()))).finish()), 64);
-            match refused {
-                Some(Err(_)) => rep.count("establishments_after_a_locally_refused_request_on_the_same_thread"),
-                Some(Ok(_)) => rep.count("establishments_after_a_request_that_was_expected_to_be_refused_but_was_sent"),
-                None => rep.count("establishments_after_a_request_left_pending"),
+            match sess::establish(&memwire::server_hello(memwire::ALL_CAPS, "4242")) {
+                Established::Ok(mut other) => {
+                    let refused = crate::sched::drive(other.session.rpc::<Get, _>(|b| b.filter(Some(Filter::Subtree("<x><!-- ]]>]]> --></x>".to_string()))).finish()), 64);
+                    match refused {
+                        Some(Err(_)) => rep.count("establishments_after_a_locally_refused_request_on_the_same_thread"),
+                        Some(Ok(_)) => rep.count("establishments_after_a_request_that_was_expected_to_be_refused_but_was_sent"),
+                        None => rep.count("establishments_after_a_request_left_pending"),
+                    }
+                    // the next session of this thread, with the plainest of hellos
+                    let again = sess::establish(&memwire::server_hello(memwire::ALL_CAPS, "4243"));
+                    if !matches!(again, Established::Ok(_)) {
+                        rep.violation(
+                            "establish:refused:valid-hello-after-a-locally-refused-request-in-this-process",
+                            &format!("a plain, valid server hello did not establish a session: {again:?}"),
+                            json!({"case_index": idx, "seed": cfg.seed, "history": "an earlier session of this thread had a request refused locally (fragment containing the end-of-message delimiter)"}),
+                        );
+                        // nothing on this thread can be judged any more
+                        return rep.finish();
+                    }
+                }
+                other => {
+                    rep.violation(
+                        "establish:refused:valid-hello-after-a-locally-refused-request-in-this-process",
+                        &format!("a plain, valid server hello did not establish a session: {other:?}"),
+                        json!({"case_index": idx, "seed": cfg.seed, "history": "an earlier session of this thread had a request refused locally (fragment containing the end-of-message delimiter)"}),
+                    );
+                    return rep.finish();
+                }
             }
         }
         // order A: server hello already there when the client starts
